@@ -352,6 +352,50 @@ def sweep_pass_failures(ctx):
                     pass
                 finally:
                     os.environ.pop("JAX2ONNX_STRICT_OPTIMIZER_FAILURES", None)
+        # ---- the FUNCTION-BODY phase of optimize_graph: every function-scoped pass forced to raise while it runs on
+        #      an @onnx_function body (top-level runners untouched): strict must re-raise, default must return the same model
+        import extra_programs as xp
+        fprogs = {"fn:nested_onnx_functions": (xp.outer_fn, [(2, 3)], {}), "fn:two_function_instances": (lambda x: xp.b2(xp.b1(x)), [(2, 4)], {})}
+        if ctx.tier == "quick":
+            fprogs = {"fn:nested_onnx_functions": fprogs["fn:nested_onnx_functions"]}
+        for name, (fn, shapes, kw) in fprogs.items():
+            m0 = to_onnx(fn, shapes, **kw)
+            if not len(m0.functions):
+                ctx.oblige(f"sweep:function-phase program {name} has function bodies", False, "tie", "export has no functions")
+                continue
+            xs = [rng.standard_normal([d.dim_value for d in i.type.tensor_type.shape.dim]).astype(np.float32) for i in m0.graph.input]
+            ref = _ort(m0, xs)
+            for k in range(len(saved)):
+                if saved[k].function_graph_runner is None:
+                    continue
+
+                def boom(*a, **k_):
+                    raise Boom("injected")
+                bad = opt._OptimizerPass(name=saved[k].name, model_runner=saved[k].model_runner, graph_runner=saved[k].graph_runner,
+                                         function_graph_runner=boom)
+                opt._OPTIMIZER_PASSES = saved[:k] + (bad,) + saved[k + 1:]
+                key = f"pass-abort {name}@fn{k}:{saved[k].name}"
+                n += 1
+                try:
+                    m = to_onnx(fn, shapes, **kw)
+                    got = _ort(m, xs)
+                    if len(got) != len(ref) or any(g.shape != r.shape or not np.allclose(g, r, rtol=1e-4, atol=1e-5) for g, r in zip(got, ref)):
+                        ctx.violate(key + ":default", "default policy returned a model that differs from the fully optimised export (failure in a function body)",
+                                    {"program": name, "pass": k, "policy": "default", "phase": "function"})
+                except Boom:
+                    ctx.violate(key + ":default", "default policy re-raised the optimizer failure (function body)", {"program": name, "pass": k, "policy": "default", "phase": "function"})
+                except Exception as e:  # noqa
+                    ctx.violate(key + ":default", f"partially optimised model is not loadable/runnable: {type(e).__name__}: {str(e)[:150]}",
+                                {"program": name, "pass": k, "policy": "default", "phase": "function"})
+                os.environ["JAX2ONNX_STRICT_OPTIMIZER_FAILURES"] = "1"
+                try:
+                    to_onnx(fn, shapes, **kw)
+                    ctx.violate(key + ":strict", "strict policy swallowed an optimizer failure raised while a pass ran on a function body",
+                                {"program": name, "pass": k, "policy": "strict", "phase": "function"})
+                except Boom:
+                    pass
+                finally:
+                    os.environ.pop("JAX2ONNX_STRICT_OPTIMIZER_FAILURES", None)
     finally:
         opt._OPTIMIZER_PASSES = saved
     return n
